@@ -99,6 +99,12 @@ def apply_site(fn_node, idx, kind):
     return f2
 
 
+DONE = set()
+for _f in glob.glob(os.path.join(OUT, "campaign_seed*.json")):
+    for _m in json.load(open(_f)).get("mutants", []):
+        DONE.add((_m["file"], _m["function"], _m["site"], _m["kind"]))
+
+
 def mutants():
     rng = random.Random(SEED)
     out = []
@@ -114,6 +120,7 @@ def mutants():
             continue
         ss = sites(target)
         rng.shuffle(ss)
+        ss = [x for x in ss if (rel, qual, x[1], x[2]) not in DONE]          # not again what an earlier campaign already tried
         for desc, idx, kind in ss[:PER_FN]:
             out.append({"file": rel, "function": qual, "span": [target.decorator_list[0].lineno if target.decorator_list else target.lineno, target.end_lineno],
                         "col": target.col_offset, "what": desc, "site": idx, "kind": kind, "props": sorted(pids)})
